@@ -130,11 +130,11 @@ func (m *cmsMem) Exec(op Tok) (opOut Tok, obs Tok) {
 		m.addOracle(s, a[2].B)
 		switch a[4].I() {
 		case 1:
-			s.UpdateOnce(a[2].B)
+			s.UpdateOnce(el(a[2].B))
 		case 2:
 			s.UpdateString(string(a[2].B), a[3].U())
 		default:
-			s.Update(a[2].B, a[3].U())
+			s.Update(el(a[2].B), a[3].U())
 		}
 		return opOut, TUnit()
 	case cmsCount:
@@ -147,7 +147,7 @@ func (m *cmsMem) Exec(op Tok) (opOut Tok, obs Tok) {
 		if a[3].I() == 2 {
 			return opOut, TNu(s.CountString(string(a[2].B)))
 		}
-		return opOut, TNu(s.Count(a[2].B))
+		return opOut, TNu(s.Count(el(a[2].B)))
 	case cmsMerge:
 		x, y := m.inst[a[1].I()], m.inst[a[2].I()]
 		if x == nil || y == nil {
@@ -277,8 +277,13 @@ func genC12(g *Gen, tier string) *Case {
 	}
 	if g.Chance(0.5) {
 		// structured scenario: disjoint streams, then merge everything into 0 in random order
+		// (in a quarter of the cases the receiver is still empty when the merges start)
+		emptyRecv := g.Chance(0.25)
 		for j := 0; j < n; j++ {
 			i := g.Intn(k)
+			if emptyRecv {
+				i = 1 + g.Intn(k-1)
+			}
 			x := pool[g.Intn(len(pool))]
 			c := g.cmsCount()
 			ops = append(ops, cmsUpdateOp(g, i, x, c))
@@ -353,7 +358,6 @@ func (s *cmsShadow) fingerprint() string {
 	}
 	return sb.String()
 }
-
 
 // monitorCMS checks C03 (bounds, exactness, empty) and C12 (merge = combined stream via the
 // shadow totals; mismatch => error and nothing changes) on the implementation's own outputs.
